@@ -1,11 +1,14 @@
 /-
 Model of the file-name / path logic of the command-line tool (/repo/v2/app):
 `BlockCompressor.Compress`, `BlockDecompressor.Decompress` (how the list of (input, output) file
-tasks is computed from `-i`, `-o` and the options) and `internal.CreateFileList` (how the list of
-input files is built from a file or a directory tree).  Core Lean only.
+tasks is computed from `-i`, `-o` and the options: `relativeToInputDir` = `filepath.Rel` with the
+`filepath.Base` fallback, `fileOutputName`, and the pre-flight `checkOutputNames` of the
+multi-file branch, which refuses with status 7 before any file is opened) and
+`internal.CreateFileList` (how the list of input files is built from a file or a directory tree).
+State of /repo: commits df40178, ffa444d, 35270d9, f45672a.  Core Lean only.
 
 Strings are lists of BYTES (`List UInt8`), because the Go code slices strings by byte offsets
-(`iName[len(formattedInName):]`, `tmpName[len(tmpName)-4:]`).
+(`tmpName[len(tmpName)-4:]`).
 
 The file system is abstract: four oracles (`FS`) answer what `os.Stat`, `os.Lstat`, the directory
 walk and `os.MkdirAll` answer.  The path strings that `filepath.Walk` reports are NOT part of the
@@ -159,9 +162,6 @@ def cName (i : Str) : Str := i ++ KNZ
 def dName (i : Str) : Str :=
   if i.length ≥ 4 ∧ eqFold (i.drop (i.length - 4)) KNZU then i.take (i.length - 4) else i ++ BAK
 
-/-- `s[n:]`: a run-time fault when `n > len(s)` -/
-def sliceFrom (s : Str) (n : Nat) : Option Str := if n ≤ s.length then some (s.drop n) else none
-
 structure Args where
   decomp : Bool
   inp : Str
@@ -173,50 +173,114 @@ structure Args where
 
 def isSpecial (o : Str) : Bool := eqFold o NONE || eqFold o STDOUT
 
-/-- the output name of one task in the loop of the multi-file branch (`nbFiles > 1`):
-compression `oName = iName + ".knz"` / `formattedOutName + iName[len(formattedInName):] + ".knz"`,
-decompression the same on `tmpName`; `fin` / `fout` are `formattedInName` / `formattedOutName` -/
-def oName (decomp : Bool) (inputIsDir special : Bool) (fin fout : Str) (i : Str) : Option Str :=
-  let tmp := if decomp then dName i else i
-  let sfx := if decomp then [] else KNZ
-  if fout = [] then some (tmp ++ sfx)
-  else if inputIsDir ∧ ¬ special then (sliceFrom tmp fin.length).map fun r => fout ++ r ++ sfx
-  else some fout
+/-! ### `filepath.Rel`, `filepath.Base`, `relativeToInputDir`, `fileOutputName`, `checkOutputNames` -/
+
+/-- the element loop of `filepath.Rel` on the elements of the two cleaned paths: common leading
+elements are dropped; `none` when the first base element that is left is `..`; the base elements
+that are left become `..` -/
+def relComps : List Str → List Str → Option (List Str)
+  | [], ts => some ts
+  | b :: bs, [] => if b = DOTDOT then none else some ((b :: bs).map fun _ => DOTDOT)
+  | b :: bs, t :: ts =>
+    if t = b then relComps bs ts
+    else if b = DOTDOT then none
+    else some (((b :: bs).map fun _ => DOTDOT) ++ t :: ts)
+
+/-- `filepath.Rel(base, targ)` (Unix): both paths cleaned; `.` when equal; an error when one is
+rooted and the other is not, or when the relative path would depend on the working directory -/
+def filepathRel (base targ : Str) : Option Str :=
+  if clean targ = clean base then some [DOT]
+  else if isRooted (clean base) ≠ isRooted (clean targ) then none
+  else
+    -- a cleaned base `.` is treated as empty; a cleaned target `.` is NOT: it is one element
+    let tc := if clean targ = [DOT] then [[DOT]] else (stackOf targ).reverse
+    (relComps (stackOf base).reverse tc).map joinSep
+
+/-- `filepath.Base` (Unix) -/
+def baseName (p : Str) : Str :=
+  if p = [] then [DOT] else
+  let q := (p.reverse.dropWhile (· = SEP)).reverse
+  let b := (q.reverse.takeWhile (· ≠ SEP)).reverse
+  if b = [] then [SEP] else b
+
+/-- `relativeToInputDir(inputDir, name)`: `filepath.Rel`, and `filepath.Base(name)` on error -/
+def relativeToInputDir (inputDir name : Str) : Str :=
+  match filepathRel inputDir name with
+  | some r => r
+  | none => baseName name
+
+/-- `fileOutputName(name)`: a name derived from the input name that would read as one of the
+special outputs is spelled `./name` -/
+def fileOutputName (name : Str) : Str := if isSpecial name then DOT :: SEP :: name else name
+
+/-- the loop of `checkOutputNames` over the outputs: `seenOut` grows -/
+def checkOuts (seenIn : List Str) : List Str → List Str → Bool
+  | _, [] => true
+  | seenOut, o :: os =>
+    let c := clean o
+    if seenIn.contains c then false
+    else if seenOut.contains c then false
+    else checkOuts seenIn (c :: seenOut) os
+
+/-- `checkOutputNames(inputs, outputs) == nil`: no cleaned output is a cleaned input, no two
+cleaned outputs are equal -/
+def checkOutputNames (inputs outputs : List Str) : Bool :=
+  checkOuts (inputs.map clean) [] outputs
+
+/-- the output name of one file in the loop of the multi-file branch (`nbFiles > 1`):
+compression `iName + ".knz"` / `formattedOutName + relativeToInputDir(formattedInName, iName) + ".knz"`,
+decompression `fileOutputName(tmpName)` / `formattedOutName + relativeToInputDir(formattedInName, tmpName)`;
+`fin` / `fout` are `formattedInName` / `formattedOutName` -/
+def oName (decomp : Bool) (inputIsDir special : Bool) (fin fout : Str) (i : Str) : Str :=
+  if decomp then
+    let tmp := dName i
+    if fout = [] then fileOutputName tmp
+    else if inputIsDir ∧ ¬ special then fout ++ relativeToInputDir fin tmp
+    else fout
+  else
+    if fout = [] then i ++ KNZ
+    else if inputIsDir ∧ ¬ special then fout ++ relativeToInputDir fin i ++ KNZ
+    else fout
 
 /-- the same for the separate `nbFiles == 1` branch (`files[0]`), which repeats the computation -/
-def oNameSingle (decomp : Bool) (inputIsDir special : Bool) (fin fout : Str) (i : Str) : Option Str :=
-  let tmp := if decomp then dName i else i
-  let sfx := if decomp then [] else KNZ
-  if fout = [] then some (tmp ++ sfx)
-  else if inputIsDir ∧ ¬ special then (sliceFrom tmp fin.length).map fun r => fout ++ r ++ sfx
-  else some fout
+def oNameSingle (decomp : Bool) (inputIsDir special : Bool) (fin fout : Str) (i : Str) : Str :=
+  if decomp then
+    let tmp := dName i
+    if fout = [] then fileOutputName tmp
+    else if inputIsDir ∧ ¬ special then fout ++ relativeToInputDir fin tmp
+    else fout
+  else
+    if fout = [] then i ++ KNZ
+    else if inputIsDir ∧ ¬ special then fout ++ relativeToInputDir fin i ++ KNZ
+    else fout
 
 inductive Plan
-  | err (code : Nat)     -- refused before any task is started (exit status `code`)
-  | fault                -- slice bounds fault while the task list is built (exit status 127)
+  | err (code : Nat)     -- refused before any file is opened (exit status `code`)
   | unsupported          -- outside the model (stdin, link as `-i` with `--skip-links`)
   | tasks (ts : List (Str × Str))
   deriving DecidableEq
 
-def mapTasks (f : Str → Option Str) : List Str → Option (List (Str × Str))
-  | [] => some []
-  | i :: is =>
-    match f i, mapTasks f is with
-    | some o, some r => some ((i, o) :: r)
-    | _, _ => none
+def ERR_OVERWRITE_FILE : Nat := 7
+def ERR_CREATE_FILE : Nat := 8
+def ERR_OPEN_FILE : Nat := 10
+def ERR_READ_FILE : Nat := 11
 
-def planOf : Option (List (Str × Str)) → Plan
-  | none => .fault
-  | some ts => .tasks ts
-
-/-- `if nbFiles == 1 { one task, run by the main goroutine } else { one task per file }` -/
-def mkTasks (decomp : Bool) (isDir special : Bool) (fin fout : Str) (files : List Str) : Plan :=
-  planOf (if files.length = 1 then mapTasks (oNameSingle decomp isDir special fin fout) files
-          else mapTasks (oName decomp isDir special fin fout) files)
+/-- `if nbFiles == 1 { one task, run by the main goroutine } else { all names first, then
+`checkOutputNames` (unless the output is none / stdout), then one task per file }`;
+`chk` is `checkOutputNames` -/
+def mkTasks (chk : List Str → List Str → Bool) (decomp : Bool) (isDir special : Bool)
+    (fin fout : Str) (files : List Str) : Plan :=
+  if files.length = 1 then .tasks (files.map fun i => (i, oNameSingle decomp isDir special fin fout i))
+  else
+    let ts := files.map fun i => (i, oName decomp isDir special fin fout i)
+    if !special && !chk (ts.map (·.1)) (ts.map (·.2)) then .err ERR_OVERWRITE_FILE
+    else .tasks ts
 
 /-- `formattedInName` of a directory input -/
 def finOf (inp : Str) : Str :=
-  let f1 := if inp.length > 1 ∧ inp.getLast? = some DOT then inp.dropLast else inp
+  -- `len > 1 && name[len-1] == '.' && name[len-2] == '/'`: only the non-recursive form `X/.`
+  let f1 := if inp.length > 1 ∧ inp.getLast? = some DOT ∧ inp.dropLast.getLast? = some SEP
+    then inp.dropLast else inp
   if f1.getLast? ≠ some SEP then f1 ++ [SEP] else f1
 
 def foutOf (out : Str) : Str := if out.getLast? ≠ some SEP then out ++ [SEP] else out
@@ -226,13 +290,8 @@ def isNonRec (inp : Str) : Bool := inp.length > 2 ∧ inp.drop (inp.length - 2) 
 
 def targetOf (inp : Str) : Str := if isNonRec inp then inp.dropLast else inp
 
-def ERR_OVERWRITE_FILE : Nat := 7
-def ERR_CREATE_FILE : Nat := 8
-def ERR_OPEN_FILE : Nat := 10
-def ERR_READ_FILE : Nat := 11
-
-/-- `Compress()` / `Decompress()` up to the creation of the tasks -/
-def plan (fs : FS) (a : Args) : Plan :=
+/-- `Compress()` / `Decompress()` up to the creation of the tasks, with the pre-flight check `chk` -/
+def planWith (chk : List Str → List Str → Bool) (fs : FS) (a : Args) : Plan :=
   if a.inp = [] ∨ eqFold a.inp STDIN then .unsupported else
   match createFileList fs (targetOf a.inp) (!isNonRec a.inp) a.noLinks a.noDot with
   | .error => .err ERR_OPEN_FILE
@@ -249,11 +308,18 @@ def plan (fs : FS) (a : Args) : Plan :=
           | none => .err ERR_OPEN_FILE
           | some (ko, _) =>
             if ko ≠ .dir then .err ERR_CREATE_FILE
-            else mkTasks a.decomp true special (finOf a.inp) (foutOf a.out) files
-        else mkTasks a.decomp true special (finOf a.inp) a.out files
+            else mkTasks chk a.decomp true special (finOf a.inp) (foutOf a.out) files
+        else mkTasks chk a.decomp true special (finOf a.inp) a.out files
       else
         if a.out ≠ [] ∧ ¬ special ∧ (fs.stat a.out).map (·.1) = some .dir then .err ERR_CREATE_FILE
-        else mkTasks a.decomp false special [] a.out files
+        else mkTasks chk a.decomp false special [] a.out files
+
+/-- the tool -/
+def plan (fs : FS) (a : Args) : Plan := planWith checkOutputNames fs a
+
+/-- the tool without its pre-flight check (what it did before the check was added): used to
+state what the check refuses -/
+def planUnchecked (fs : FS) (a : Args) : Plan := planWith (fun _ _ => true) fs a
 
 /-! ### what happens to the tasks (`openOutputFile`, first steps of `call`): an envelope of the
 exit status, used only by the correspondence stream -/
